@@ -26,7 +26,7 @@ func init() {
 		ID: "C08", Title: "BGZF output is spec-conformant, gzip-compatible, deterministic and EOF-marked", Level: "other",
 		Rules: append([]RuleDef{bgzfConst, bsize, fextra, hasEOF,
 			{Name: "OWN-WRITE-ARG", What: "Writer.Write only measures, reslices and copies from its argument; no slice of the caller's buffer is stored, sent or captured (added after a blind second seed round)", Floor: 1, Run: ruleWriteArgOwned},
-		}, writerRules("W4", "W6", "W8", "W9")...),
+		}, writerRules("W4", "W5", "W6", "W8", "W9")...),
 		Explanation: "TAB-BGZF/TAB-FEXTRA/BIT-BSIZE: every member carries the BC subfield first, with BSIZE = length−1 written under a guard that rejects members of 64 KiB or more, payload bounded by the array type; W4: only the single emitter (and Close after it finished) writes to the underlying writer, each block by one copy of a complete member, so the stream is a concatenation of whole members independent of the number of compressors; W6: the marker is written once, only by Close, only if no error was latched, after the emitter finished; W9: nothing follows a failed block; PATH-HASEOF: HasEOF compares exactly the trailing 28 bytes.",
 		NotDecided:  "that compress/gzip emits RFC 1952 (trusted); the bytes.Index search for the BC prefix over the whole member (a ModTime of 42 43 02 00 would be matched first) – value-level.",
 		Assumptions: []string{"compress/gzip is RFC 1952 conformant"},
